@@ -140,9 +140,24 @@ def _compare(ctx, cfg, obj, label):
         ctx.check_eq(got[k], want[k], label + ":same-distribution-as-fresh-object")
 
 
-def h_history(ctx, kind, ops, read_between):
+def _sample_once(ctx, obj, decisions, en):
+    """one sample() under the stubs; (state, measure) or the exception name"""
+    from .c07 import _world_run
+    lw = ctx.lw
+    try:
+        (st, w) = _world_run(ctx, en, obj.sample, decisions=decisions, run_id=0)
+        return tuple(st.s), w.path_measure()
+    except (ValueError, lw.emulator.EmulatorError, ZeroDivisionError, AttributeError) as e:
+        return type(e).__name__, None
+
+
+def h_history(ctx, kind, ops, read_between, sample_first=False):
+    from symx import stubs
     cfg = _Cfg(ctx, kind)
     obj = cfg.make()
+    if sample_first:
+        # single-shot sampling before anything else (builds whatever sample() caches)
+        _sample_once(ctx, obj, {}, stubs.Enumerator())
     _compare(ctx, cfg, obj, "initial")
     for i, op in enumerate(ops):
         if not cfg.apply(obj, op):
@@ -152,10 +167,19 @@ def h_history(ctx, kind, ops, read_between):
             _compare(ctx, cfg, obj, f"after:{op}")
     # sampling: the long-lived object and a fresh one, fed the same random decisions, must
     # hand the same support/probabilities to the generator and return the same samples
-    from symx import stubs
     from .c07 import _world_run
     lw = ctx.lw
     fresh = cfg.fresh()
+    if sample_first:
+        en = stubs.Enumerator()
+
+        def once_single():
+            shared = {}
+            return _sample_once(ctx, obj, shared, en), _sample_once(ctx, fresh, shared, en)
+        for (s1, m1), (s2, m2) in en.run_all(once_single):
+            ctx.check(s1 == s2, f"after:{ops[-1]}:sample-returns-what-a-fresh-object-returns", {"long-lived": str(s1), "fresh": str(s2)})
+            if m1 is not None and m2 is not None:
+                ctx.check_eq(m1, m2, f"after:{ops[-1]}:sample-draws-with-the-current-probabilities")
     errs = (ValueError, lw.emulator.EmulatorError, lw.emulator.SamplerError, ZeroDivisionError)
     methods = [("sample_N_outputs", lambda o: o.sample_N_outputs(2, seed=1))]
     if kind == "sampler":
@@ -260,6 +284,10 @@ def harnesses(tier):
                 hist.append(dict(kind=kind, ops=list(ops), read_between=rb))
         for o in avail:
             hist.append(dict(kind=kind, ops=[o], read_between=True))
+            hist.append(dict(kind=kind, ops=[o], read_between=True, sample_first=True))
+        for o1 in ("input", "param-set", "circuit-herald-moved", "brightness" if kind == "sampler" else "postselect"):
+            for o2 in ("detector-mode", "input"):
+                hist.append(dict(kind=kind, ops=[o1, o2], read_between=True, sample_first=True))
     swr = [dict(kind=k, op=o) for k in ("sampler", "quick") for o in (None, "param-set", "input", "circuit-edit", "detector-mode")]
     return [
         ("history", h_history, hist, dict(max_paths=4000, max_seconds=1500)),
